@@ -55,7 +55,11 @@ impl State {
         let mut res = self.newlines.pop().map_or(vec![], |nl| vec![nl]);
         if self.line_indent >= self.cur_indent {
             let amount = (level(self.line_indent) - level(self.cur_indent)) as usize;
-            res.append(&mut vec![Lex::new(self.pos, Token::Indent); amount]);
+            // every indent stands for the four spaces of its level in front of the token
+            let first = level(self.cur_indent) as usize;
+            res.extend((first..first + amount).map(|level| {
+                Lex::new(CaretPos::new(self.pos.line, 4 * level + 1), Token::Indent)
+            }));
         } else {
             let amount = (level(self.cur_indent) - level(self.line_indent)) as usize;
             res.append(&mut vec![Lex::new(self.pos, Token::Dedent); amount]);
